@@ -82,7 +82,7 @@ func execConc(h CCH, rec *pbt.Rec) error {
 			bulk = true
 		}
 	}
-	r, err := x.Call(&xp.Req{Op: "node-add-concurrent", Name: "n", A: uint64(h.Clients), B: uint64(h.Calls), C: uint64(h.Backups), Args: sizes}, 300*time.Second)
+	r, err := x.Call(&xp.Req{Op: "node-add-concurrent", Name: "n", A: uint64(h.Clients), B: uint64(h.Calls), C: uint64(h.Backups), Args: sizes}, 90*time.Second)
 	if err != nil {
 		return fmt.Errorf("%d clients inserting at once killed the node's process: %v", h.Clients, err)
 	}
